@@ -98,15 +98,27 @@ func evalCase(c *XCase) (res XRes, herr error) {
 			herr = nil
 		}
 	}()
-	out, err := expr.Evaluate(env, syms)
-	if err != nil {
-		return XRes{K: "err", Msg: err.Error()}, nil
+	once := func() XRes {
+		out, err := expr.Evaluate(env, syms)
+		if err != nil {
+			return XRes{K: "err", Msg: err.Error()}
+		}
+		v, err := fromTerm(out, syms)
+		if err != nil {
+			return XRes{K: "err", Msg: "non-value result: " + err.Error()}
+		}
+		return XRes{K: "ok", V: &v}
 	}
-	v, err := fromTerm(out, syms)
-	if err != nil {
-		return XRes{K: "err", Msg: "non-value result: " + err.Error()}, nil
+	first := once()
+	// an expression is evaluated once per binding of a rule: evaluating the SAME expression object with the SAME
+	// operands again must give the same result (operands are values, evaluation must not modify them)
+	second := once()
+	a, _ := json.Marshal(first.V)
+	b, _ := json.Marshal(second.V)
+	if first.K != second.K || string(a) != string(b) {
+		return XRes{K: "unstable", Msg: fmt.Sprintf("first evaluation: %s %s, second evaluation of the same expression: %s %s", first.K, a, second.K, b)}, nil
 	}
-	return XRes{K: "ok", V: &v}, nil
+	return first, nil
 }
 
 func init() {
